@@ -100,6 +100,10 @@ def run_tlc(d, module, cfg, workers=4, env=None, timeout=600, dump=None, extra=(
     e["JAVA_TOOL_OPTIONS"] = jto
     if env:
         e.update(env)
+    # TLC unpacks its standard modules into java.io.tmpdir on every start: keep that inside the scratch dir
+    jt = os.path.join(d, "jtmp")
+    os.makedirs(jt, exist_ok=True)
+    e["JAVA_TOOL_OPTIONS"] = e.get("JAVA_TOOL_OPTIONS", "") + " -Djava.io.tmpdir=" + jt
     cmd = ["timeout", str(timeout), "tlc", "-workers", str(workers), "-metadir", os.path.join(d, "meta-" + module + "-" + os.path.basename(cfg)), "-config", cfg]
     if dump:
         cmd += ["-dump", "dot,actionlabels", dump]
@@ -393,7 +397,9 @@ def validate_traces(workdir, specdirs, module, traces, timeout=1200, deque=False
         jto = "-DTLA-Library=%s -Xmx3g -Xss256m" % TLA_LIB
         if deque:
             jto += " -Dtlc2.tool.queue.IStateQueue=StateDeque"
-        e["JAVA_TOOL_OPTIONS"] = jto
+        jt = os.path.join(d, "jtmp")
+        os.makedirs(jt, exist_ok=True)
+        e["JAVA_TOOL_OPTIONS"] = jto + " -Djava.io.tmpdir=" + jt
         e["TRACE_FILE"] = tf
         e["VERDICT_FILE"] = vf
         cmd = ["timeout", str(timeout), "tlc", "-workers", "1", "-metadir", os.path.join(d, "meta"), "-config", module + ".cfg", module + ".tla"]
